@@ -621,6 +621,8 @@ def render_c11(units, style):
     for ui, (mns, q, args) in enumerate(units):
         g = lambda k: style.get((ui, k), b"")   # noqa: E731
         out += g("lead")
+        if not mns[0].startswith("*") and (ui > 0 or style.get("abs0")):
+            out += b":"          # units after the first are written absolute (so that each is valid); the first optionally
         out += ":".join(spell(m, style.get((ui, "form"), "long"), style.get((ui, "case"), "upper")) for m in mns).encode()
         if q:
             out += b"?"
@@ -681,6 +683,8 @@ def c11(tier):
             for case in ("upper", "lower", "alt"):
                 ins.append(render_c11(units, {(ui, k): v for ui in range(len(units)) for k, v in (("form", form), ("case", case))}))
         ins.append(render_c11(units, {"eol": b"\r\n"}))
+        ins.append(render_c11(units, {"abs0": True}))
+        ins.append(render_c11(units, {"abs0": True, (0, "lead"): b" \t", "eol": b" \r\n"}))
         # seeded combinations of everything at once
         for _ in range(10 if tier == "quick" else 100):
             st = {}
@@ -693,6 +697,7 @@ def c11(tier):
                 st[(ui, "form")] = s.rng.choice(["long", "short"])
                 st[(ui, "case")] = s.rng.choice(["upper", "lower", "alt"])
             st["eol"] = s.rng.choice([b"\n", b"\r\n"])
+            st["abs0"] = s.rng.random() < 0.3
             ins.append(render_c11(units, st))
         for k in range(0, len(ins), 40):
             cases.append({"kind": "runset", "iface": "main", "w": {"k": "rec"}, "ins": [b(base)] + [b(i) for i in ins[k:k + 40]]})
